@@ -89,30 +89,36 @@ void list_output_copper(
 
   fprintf(asm_context->list, "\n");
 
-  disasm_copper(
-    memory,
-    start,
-    instruction,
-    sizeof(instruction),
-    asm_context->flags,
-    &cycles_min,
-    &cycles_max);
-
-  opcode = memory->read16(start);
-  data = memory->read16(start + 2);
-
-  if (cycles_min < 0)
+  while (start < end)
   {
-    fprintf(asm_context->list, "0x%04x: %04x %04x %-40s", start, opcode, data, instruction);
-  }
-    else
-  if (cycles_min == cycles_max)
-  {
-    fprintf(asm_context->list, "0x%04x: %04x %04x %-40s cycles: %d\n", start, opcode, data, instruction, cycles_min);
-  }
+    disasm_copper(
+      memory,
+      start,
+      instruction,
+      sizeof(instruction),
+      asm_context->flags,
+      &cycles_min,
+      &cycles_max);
+
+    opcode = memory->read16(start);
+    data = memory->read16(start + 2);
+
+    if (cycles_min < 0)
+    {
+      fprintf(asm_context->list, "0x%04x: %04x %04x %-40s", start, opcode, data, instruction);
+    }
       else
-  {
-    fprintf(asm_context->list, "0x%04x: %04x %04x %-40s cycles: %d-%d\n", start, opcode, data, instruction, cycles_min, cycles_max);
+    if (cycles_min == cycles_max)
+    {
+      fprintf(asm_context->list, "0x%04x: %04x %04x %-40s cycles: %d\n", start, opcode, data, instruction, cycles_min);
+    }
+      else
+    {
+      fprintf(asm_context->list, "0x%04x: %04x %04x %-40s cycles: %d-%d\n", start, opcode, data, instruction, cycles_min, cycles_max);
+    }
+
+    // Every copper instruction is two 16 bit words.
+    start += 4;
   }
 }
 
